@@ -124,6 +124,28 @@ def check_crowding(columns, exact):
             if (g == math.inf) != (e == math.inf) or (e != math.inf and abs(g - e) > 1e-12 * max(1.0, abs(e))):
                 out.append(("C03:crowding:formula:n=%d:m=%d" % (n, m), desc + " expected %r" % (exp,)))
                 break
+        # history: the same Individual objects measured again -- the same front twice, a sub-front first and then the whole
+        # front (a former boundary member becomes interior), the whole front and then a sub-front
+        if not out and n <= 6:
+            for label, pick in (("same-front-twice", (0, 0)), ("sub-front-then-whole", (1, 0)), ("whole-then-sub-front", (0, 1))):
+                again = []
+                for i in range(n):
+                    ind = Individual([float(i)])
+                    ind.costs_signed = [col[i] for col in columns] + [True]
+                    again.append(ind)
+                try:
+                    for start in pick:
+                        crowding_distance(list(again[start:]))
+                except Exception as e:
+                    out.append(("C03:crowding:measured-again:exception:%s" % type(e).__name__, "%s on %r raised %r" % (label, columns, e)))
+                    break
+                last = again[pick[-1]:]
+                got2 = [i.features.get('crowding_distance') for i in last]
+                exp2 = ([math.inf] * len(last)) if len(last) <= 2 else ref_crowding([tuple(x.costs_signed[:-1]) for x in last])
+                bad = any(g is None or (g == math.inf) != (e == math.inf) or (e != math.inf and abs(g - e) > 1e-12 * max(1.0, abs(e))) for g, e in zip(got2, exp2))
+                if bad:
+                    out.append(("C03:crowding:measured-again:%s" % label, "columns %r, %s: the members of the front measured last carry %r, formula %r" % (columns, label, got2, exp2)))
+                    break
     else:
         if any(not (g >= 0) for g in got):
             out.append(("C03:crowding:negative", desc))
@@ -501,3 +523,4 @@ def run(tier, seed):
 RULE += (' Pools that mix the carrier classes of the framework (Individual, IndividualNSGAII, IndividualEpsMOEA, IndividualSwarm, loaded from a dict) in every rotation, n<=3.')
 
 RULE += (' Beyond small: truncation of structured populations of 31..257 (thorough 1000) at seven sizes; exact crowding formula on tie-free fronts of 31..1000 members with 1-3 objectives.')
+RULE += (' Crowding distances of the same Individual objects measured again (same front twice, sub-front then whole front, whole front then sub-front; fronts <= 6) must follow the formula for the front measured last.')
